@@ -17,7 +17,7 @@ import six
 from . import Grid
 from .datatypes import Quantity, Coordinate, Ref, Bin, Uri, \
     MARKER, NA, REMOVE, STR_SUB, XStr
-from .version import LATEST_VER, VER_3_0
+from .version import LATEST_VER, VER_3_0, Version
 from .zoneinfo import timezone_name
 
 # Characters that need escaping: the delimiters, everything outside ASCII and
@@ -45,6 +45,15 @@ def uri_sub(match):
         return '\\u%04x' % o
     elif c in '\\`':
         return '\\%s' % c
+
+
+def _pre_3_0(version):
+    """
+    True if the given version is to be treated as older than Project Haystack
+    3.0.  Unofficial versions are treated like the nearest official one, as
+    Grid and the parser do.
+    """
+    return Version.nearest(version) < VER_3_0
 
 
 def dump_grid(grid):
@@ -100,7 +109,7 @@ def dump_scalar(scalar, version=LATEST_VER):
     if scalar is None:
         return 'N'
     elif scalar is NA:
-        if version < VER_3_0:
+        if _pre_3_0(version):
             raise ValueError('Project Haystack version %s ' \
                              'does not support NA' \
                              % version)
@@ -111,7 +120,7 @@ def dump_scalar(scalar, version=LATEST_VER):
         return 'R'
     elif isinstance(scalar, list):
         # Forbid version 2.0 and earlier.
-        if version < VER_3_0:
+        if _pre_3_0(version):
             raise ValueError('Project Haystack version %s ' \
                              'does not support lists' \
                              % version)
@@ -120,7 +129,7 @@ def dump_scalar(scalar, version=LATEST_VER):
             scalar))
     elif isinstance(scalar, dict):
         # Forbid version 2.0 and earlier.
-        if version < VER_3_0:
+        if _pre_3_0(version):
             raise ValueError('Project Haystack version %s ' \
                              'does not support dicts' \
                              % version)
@@ -180,7 +189,7 @@ def dump_uri(uri_value, version=LATEST_VER):
 
 
 def dump_bin(bin_value, version=LATEST_VER):
-    if version < VER_3_0:
+    if _pre_3_0(version):
         return 'Bin(%s)' % bin_value
     # Project Haystack 3.0 has no Bin literal of its own: a Bin is written as
     # the extended string Bin("mime/type").
